@@ -4,7 +4,7 @@ import logging
 import random
 
 from harness.legs import cfg_text, gen_traces, leg_apalache, leg_m, leg_mutant, leg_r, leg_t_gen
-from harness.vloop import VClock, VLoop
+from harness.vloop import Falsy, VClock, VLoop
 
 SPEC = "Retry"
 MANIFEST = dict(
@@ -119,7 +119,7 @@ class RetryDriver:
                     raise _ScriptEnd()
                 o = script[k - 1]
                 if o == "ok":
-                    objs[k] = ("val", object())
+                    objs[k] = ("val", Falsy(k))
                     return objs[k][1]
                 objs[k] = ("exc", EXC[o](f"invocation {k}"))
                 raise objs[k][1]
